@@ -10,7 +10,7 @@ at valid locations.
 
 from collections import namedtuple
 
-from xdis.bytecode import get_instructions_bytes
+from xdis.bytecode import get_instructions_bytes, get_localsplusnames
 from xdis.codetype.base import iscode
 from xdis.load import check_object_path, load_module
 from xdis.op_imports import get_opcode_module
@@ -59,6 +59,11 @@ class LineOffsetInfo(object):
             constants=code.co_consts,
             cells=code.co_cellvars + code.co_freevars,
             linestarts=self.linestarts,
+            localsplusnames=(
+                get_localsplusnames(code)
+                if self.opc.version_tuple >= (3, 11)
+                else None
+            ),
         ):
             offset = instr.offset
             self.offsets.append(offset)
